@@ -13,6 +13,8 @@ def ops_for(n, i):
            ('peekr', 0, 2), ('peekr', 0, 5), ('slice', 0, 2), ('slice', 1, None), ('slice', None, 2), ('item', 0),
            ('item', 1), ('item', 7), ('startswith', 'a'), ('startswith', 'ab'), ('fu', 'b'), ('nfu', 'b'),
            ('fu', 'z'), ('nfu', 'z')]
+    # endswith with a text longer than what has been consumed: a plain list prefix shorter than the text cannot end with it
+    out += [('endswith', 'aa'), ('endswith', 'ab'), ('endswith', 'ba'), ('endswith', 'aab')]
     for j in (1, 2):
         if i + j <= n:
             out.append(('forward', j))
@@ -52,7 +54,7 @@ def model_apply(seq, i, op):
     if k == 'startswith':
         return (''.join(seq[i:i + len(op[1])]).startswith(op[1]), i)
     if k == 'endswith':
-        return (''.join(seq[i - len(op[1]):i]).endswith(op[1]), i)
+        return (''.join(seq[max(i - len(op[1]), 0):i]).endswith(op[1]), i)
     if k == 'forward':
         return (''.join(seq[i:i + op[1]]), i + op[1])
     if k == 'backward':
